@@ -45,7 +45,7 @@ class Ctx:
         prefix = prefix or (self.pid + "_")
         ok_all = True
         if extractors is not None:
-            files, errs = L.regenerate(extractors)
+            files, errs = L.regenerate(extractors, repo=B.REPO)
             for e in errs:
                 self.broken.append(("extract", e)); ok_all = False
         targets = [props_module] + list(extra_modules) + list(exes)
